@@ -2617,6 +2617,8 @@ class Composite(ArmiObject):
 
     def setChildren(self, items):
         """Clear this container and fills it with new children."""
+        # the new children may be given as an iterator over the present ones (e.g. reversed(self))
+        items = list(items)
         self.removeAll()
         for c in items:
             self.add(c)
